@@ -58,6 +58,7 @@ int main(int argc, char ** argv)
    const std::string o = op;
    bool okExpected = true, ok = true; int32 got = 0, want = 0; bool haveItem = false;
    long long retGot = 0, retWant = 0; bool haveRet = false;
+   bool comparePrefixOnly = false; uint32 wantCount = 0;   // EnsureSize(setNumItems): the values of newly exposed items are unspecified
    if (o == "RemoveHead__0") {okExpected = !ideal.empty(); if (okExpected) ideal.pop_front(); ok = q.RemoveHead().IsOK();}
    else if (o == "RemoveHead__1") {okExpected = !ideal.empty(); if (okExpected) {want = ideal.front(); ideal.pop_front(); haveItem = true;} ok = q.RemoveHead(got).IsOK();}
    else if (o == "RemoveTail__0") {okExpected = !ideal.empty(); if (okExpected) ideal.pop_back(); ok = q.RemoveTail().IsOK();}
@@ -72,6 +73,18 @@ int main(int argc, char ** argv)
    else if (o == "ReverseItemOrdering") {uint32 hi = (a1 < ideal.size()) ? a1 : (uint32) ideal.size(); for (uint32 i=a0, j=hi; (hi > 0)&&(i+1 < j); i++) {j--; std::swap(ideal[i], ideal[j]);} q.ReverseItemOrdering(a0, a1);}
    else if (o == "IndexOf") {retWant = -1; for (uint32 i=a0; (i<a1)&&(i<ideal.size()); i++) if (ideal[i] == ai) {retWant = i; break;} retGot = q.IndexOf(ai, a0, a1); haveRet = true;}
    else if (o == "LastIndexOf") {retWant = -1; if (a1 < ideal.size()) {for (int64 i=(int64)((a0 < ideal.size()-1) ? a0 : ideal.size()-1); i>=(int64)a1; i--) if (ideal[(size_t)i] == ai) {retWant = i; break;}} retGot = q.LastIndexOf(ai, a0, a1); haveRet = true;}
+   else if ((o == "EnsureSizeAux")||(o == "EnsureSize"))
+   {
+      // mv_ai packs the two flags: bit 0 = setNumItems, bit 1 = allowShrink; mv_a1 = extra preallocation
+      const bool setNum = ((ai & 1) != 0), shrink = ((ai & 2) != 0);
+      const status_t r = q.EnsureSize(a0, setNum, a1, shrink);
+      ok = okExpected = true;   // (allocation never fails natively)
+      if (r.IsOK())
+      {
+         if (setNum) {const size_t keep = (a0 < ideal.size()) ? a0 : ideal.size(); ideal.resize(keep); comparePrefixOnly = true; wantCount = a0;}
+         if (q.GetNumAllocatedItemSlots() < a0) {printf("REPRODUCED: %s(%u) returned OK but only %u slots are allocated\n", op, a0, q.GetNumAllocatedItemSlots()); return 1;}
+      }
+   }
    else {printf("operation %s has no native replay\n", op); return 3;}
 
    std::string why; int bad = 0;
@@ -81,8 +94,8 @@ int main(int argc, char ** argv)
    if ((haveItem)&&(ok)&&(got != want)) {printf("REPRODUCED: %s handed back item %d, ideal sequence says %d\n", op, got, want); bad = 1;}
    if (!bad)
    {
-      if (q.GetNumItems() != ideal.size()) {printf("REPRODUCED: %u items after %s, ideal sequence has %u\n", q.GetNumItems(), op, (unsigned) ideal.size()); bad = 1;}
-      else for (uint32 i=0; i<q.GetNumItems(); i++) if (q[i] != ideal[i]) {printf("REPRODUCED: item %u is %d after %s, ideal sequence has %d\n", i, q[i], op, ideal[i]); bad = 1; break;}
+      if (q.GetNumItems() != (comparePrefixOnly ? wantCount : (uint32) ideal.size())) {printf("REPRODUCED: %u items after %s, ideal sequence has %u\n", q.GetNumItems(), op, comparePrefixOnly ? wantCount : (unsigned) ideal.size()); bad = 1;}
+      else for (uint32 i=0; i<(comparePrefixOnly ? (uint32) ideal.size() : q.GetNumItems()); i++) if (q[i] != ideal[i]) {printf("REPRODUCED: item %u is %d after %s, ideal sequence has %d\n", i, q[i], op, ideal[i]); bad = 1; break;}
    }
    if (!bad) printf("real code agrees with the ideal sequence on this input\n");
    return bad;
